@@ -209,6 +209,19 @@ CHECKS = {
         "Single for clause only; constructor calls that omit or double-bind fields are outside the statement.",
         "DESIGN.md section 4, C06",
     ),
+    "C01": (
+        "Hypothesis generation of whole programs (stream forests, 3 lambda supply forms, captures/helpers/sugar/typed defaults) x "
+        "datasets; oracle = differential: the same module text executed with a python sequence class vs CPython evaluation of the "
+        "AST handed to the executor, as received and after each shipped backend pass alone and cumulatively",
+        "Each generated module is executed twice: with a recording func_adl dataset (value_async -> AST received by the executor) "
+        "and, unchanged, with a python sequence of the same events (python literally runs the chain: strings eval'd, ASTs "
+        "compiled). The received AST, and the AST after extract_metadata / method->function form / aggregate shortcuts / "
+        "simplification (each alone and in backend order), is evaluated by CPython under the deferred LINQ prelude and must "
+        "equal python's result exactly and type-strictly for every output stream and terminal.",
+        "Typed event model with real method bodies (defaults have meaning); programs limited to that model; python raising => "
+        "nothing required; build-time ValueError => counted as refused.",
+        "DESIGN.md section 4, C01",
+    ),
 }
 
 NOT_YET = "check not built yet in this round (work in progress; see DESIGN.md section 4 for the planned generator/oracle)"
